@@ -309,6 +309,29 @@ pub fn all_cases() -> Vec<Case> {
         cj["servers"][0].as_object_mut().unwrap().remove("cipher");
         v.push(Case { class: "unknown-cipher".into(), label: "client/cipher missing".into(), server_json: server_json("shadowsocks", "aes-256-gcm", Some("tcp"), &pw, &[], false), client_json: cj.to_string(), expect: None, failing_side: "client".into(), canary_tcp: false, canary_udp: false });
     }
+    // G. undocumented cipher strings on VMess and Trojan entries: the name is part of every entry, whatever the protocol
+    //    does with it - a misspelt or foreign name must stop start-up there too (never a silent aes-128-gcm)
+    for proto in ["vmess", "trojan"] {
+        for value in ["aes-192-gcm", "AES-128-GCM", "", "chacha20-poly-1305", "aes-128-cfb", "none", "2022-blake3-aes-192-gcm"] {
+            for side in ["server", "client"] {
+                let (pw_s, pw_c, users) = if proto == "vmess" {
+                    let id = gen_uuid(&mut g);
+                    ("unused".to_owned(), id.clone(), vec![("u".to_owned(), id)])
+                } else {
+                    let k = gen_password(&mut g);
+                    (k.clone(), k, vec![])
+                };
+                let mut sj: serde_json::Value = serde_json::from_str(&server_json(proto, "aes-128-gcm", None, &pw_s, &users, false)).unwrap();
+                let mut cj: serde_json::Value = serde_json::from_str(&client_json(proto, "aes-128-gcm", Some("tcp"), &pw_c, false)).unwrap();
+                if side == "server" {
+                    sj[0]["cipher"] = value.into();
+                } else {
+                    cj["servers"][0]["cipher"] = value.into();
+                }
+                v.push(Case { class: "unknown-cipher".into(), label: format!("{proto}/{side}/cipher={value:?}"), server_json: sj.to_string(), client_json: cj.to_string(), expect: None, failing_side: side.into(), canary_tcp: false, canary_udp: false });
+            }
+        }
+    }
     v
 }
 
